@@ -30,29 +30,39 @@ def ob_history(ob):
         base = {pi: observe(pi) for pi in probes}
 
     fixed_first = ob.params.get('first')
+    PER_PROBE = ('mutate_exports', 'parse_same_under_other_defaults')
+    plist = list(probes)
 
-    def run(pi, ops):
-        pi = choose(pi, probes)
+    def run(ops):
         save = (pytrs.TRS._USE_CACHE, pytrs.MasterConfig.default_ns, pytrs.MasterConfig.default_ew)
         try:
             for j, o in enumerate(ops):
-                apply_op(fixed_first if (j == 0 and fixed_first is not None) else choose(o, range(len(OPS))), pi)
+                op = fixed_first if (j == 0 and fixed_first is not None) else choose(o, range(len(OPS)))
+                if OPS[op] in PER_PROBE:
+                    for pi in plist:
+                        apply_op(op, pi)
+                else:
+                    apply_op(op, plist[0])
             if (pytrs.MasterConfig.default_ns, pytrs.MasterConfig.default_ew) != save[1:]:
                 return False
-            return observe(pi) == base[pi]
+            # every probe is evaluated after every history: a leak shows on the first path that contains its cause
+            for pi in plist:
+                if observe(pi) != base[pi]:
+                    return False
+            return True
         finally:
             pytrs.TRS._USE_CACHE, pytrs.MasterConfig.default_ns, pytrs.MasterConfig.default_ew = save
 
     if nops == 1:
-        def target(pi: int, o0: int):
-            return run(pi, [o0])
+        def target(o0: int):
+            return run([o0])
     elif nops == 2:
-        def target(pi: int, o0: int, o1: int):
-            return run(pi, [o0, o1])
+        def target(o0: int, o1: int):
+            return run([o0, o1])
     else:
-        def target(pi: int, o0: int, o1: int, o2: int):
-            return run(pi, [o0, o1, o2])
-    st = explore(target, timeout=ob.params.get('cap', 900), max_viol=2)
+        def target(o0: int, o1: int, o2: int):
+            return run([o0, o1, o2])
+    st = explore(target, timeout=ob.params.get('cap', 900), max_viol=1)
     info = dict(bound=f'histories of {nops} prior operations over {len(OPS)} kinds x {len(list(probes))} probes',
                 samples=[{'ops': list(OPS)}])
 
@@ -61,14 +71,12 @@ def ob_history(ob):
 
     def mk(vs):
         out = {}
-        pl = list(probes)
         for v in vs:
             a = v['args']
             ops = [OPS[fixed_first if (i == 0 and fixed_first is not None) else cl(a[f'o{i}'], len(OPS))] for i in range(nops)]
-            pi = pl[cl(a['pi'], len(pl))]
             key = 'history:' + '+'.join(sorted(set(ops)))
-            out.setdefault(key, violation(key, f'probe #{pi} after prior operations {ops} differs from the same probe with an '
-                                               f'empty history; {v["exc"]}', 'c15_history', {'pi': pi, 'ops': ops}))
+            out.setdefault(key, violation(key, f'after prior operations {ops} some probe differs from the same probe with an empty history; {v["exc"]}',
+                                          'c15_history', {'ops': ops}))
         return list(out.values())
     return from_explore(st, info, mk)
 
@@ -78,16 +86,14 @@ def obligations(tier):
     F = ['TRS.__init__', 'TRS.trs (setter)', 'TRS._cache_trs_to_dict', 'TRS.trs_to_dict', 'TRS._clear_cache',
          'TRS.construct_trs', 'plss_preprocess', 'unpack_twprge', 'find_twprge', 'Tract.__init__', 'Tract.to_dict',
          'PLSSDesc.__init__', 'TractList.tracts_to_dict', 'TractList.list_trs']
-    obs = [Ob('history_1', 'S', ob_history, 'one prior operation', functions=F, weight=2, timeout=1500,
-              params={'nops': 1, 'cap': 1200}),
-           ]
     from props.c15_ref import OPS
+    obs = [Ob('history_1', 'S', ob_history, 'one prior operation', functions=F, weight=2, timeout=1500, params={'nops': 1, 'cap': 1200})]
     for k, name in enumerate(OPS):
         obs.append(Ob(f'history_2_{name}', 'S', ob_history, f'two prior operations, the first being {name}', functions=F, weight=6,
                       timeout=3000, params={'nops': 2, 'cap': 2700, 'first': k}))
     if not q:
         from props.c15_ref import N_PROBES
-        for sh in range(7):
-            obs.append(Ob(f'history_3_{sh}', 'S', ob_history, f'three prior operations, probes shard {sh}', functions=F, weight=9,
-                          timeout=7000, params={'nops': 3, 'cap': 6500, 'probes': list(range(sh * 2, min(sh * 2 + 2, N_PROBES)))}))
+        for k, name in enumerate(OPS):
+            obs.append(Ob(f'history_3_{name}', 'S', ob_history, f'three prior operations, the first being {name}', functions=F, weight=9,
+                          timeout=7000, params={'nops': 3, 'cap': 6500, 'first': k}))
     return obs
